@@ -88,9 +88,11 @@ def check_nan(kind, s, rng):
     with warnings.catch_warnings(record=True) as w:
         warnings.simplefilter('always')
         # chunked or not
-        if rng.random() < 0.5 and len(s2) > 4:
-            cut = rng.randint(1, len(s2) - 1)
-            chunks = [s2[:cut], s2[cut:]]
+        if rng.random() < 0.6 and len(s2) > 3:
+            # any partition: borders next to / between NaNs, chunks that hold only NaNs (NaN directly before the last sample of a chunk
+            # whose last sample becomes a reversal in the next chunk: seeded change C03-6)
+            cuts = sorted(set(rng.randint(1, len(s2) - 1) for _ in range(rng.randint(1, 3))))
+            chunks = [s2[i:j] for i, j in zip([0] + cuts, cuts + [len(s2)])]
         else:
             chunks = [s2]
         if any(len(c) == 0 or math.isnan(c[0]) and False for c in chunks):
@@ -100,8 +102,8 @@ def check_nan(kind, s, rng):
         return 'no warning when NaN samples are dropped', s2
     va = [c[:2] for c in a[0]], a[1]
     vb = [c[:2] for c in b[0]], b[1]
-    if len(chunks) == 1 and va != vb:
-        return 'values differ from those of the NaN-free signal', s2
+    if va != vb:
+        return 'values differ from those of the NaN-free signal%s' % (' (fed in chunks of %s samples)' % [len(c) for c in chunks] if len(chunks) > 1 else ''), s2
     if kind != 'F':
         idx = [i for c in b[0] for i in c[2:]] + list(b[2])
         vals = [v for c in b[0] for v in c[:2]] + list(b[1])
